@@ -34,6 +34,8 @@ const MAX_THREADS: usize = 64;
 pub struct Ctx {
     pub property: String, pub layer: String, pub tier: Tier, pub seed: u64, pub threads: usize,
     pub only: Option<(String, u64)>,
+    /// replay of a violation that needs what ran before it: cases `from..=to` of one sweep, in index order, on one fresh thread
+    pub window: Option<(String, u64, u64)>,
     /// C17 mode: only panics / hangs count, every other oracle is muted
     pub panic_only: bool,
     start: Instant,
@@ -60,10 +62,11 @@ pub fn filler_bytes(seed: u64, tag: u64, len: usize) -> Vec<u8> { (0..len).map(|
 impl Ctx {
     pub fn from_args(property: &str, layer: &str, args: &[String]) -> Ctx {
         let mut tier = match std::env::var("VERIF_TIER").as_deref() { Ok("thorough") => Tier::Thorough, _ => Tier::Quick };
-        let mut only = None; let mut i = 0;
+        let mut only = None; let mut window = None; let mut i = 0;
         while i < args.len() {
             match args[i].as_str() {
                 "--tier" => { tier = if args[i + 1] == "thorough" { Tier::Thorough } else { Tier::Quick }; i += 1; }
+                "--window" => { let mut it = args[i + 1].rsplitn(3, ':'); let to: u64 = it.next().and_then(|x| x.parse().ok()).expect("--window sweep:from:to"); let from: u64 = it.next().and_then(|x| x.parse().ok()).expect("--window sweep:from:to"); let s = it.next().expect("--window sweep:from:to").to_string(); only = Some((s.clone(), to)); window = Some((s, from, to)); i += 1; }
                 "--only" => { let (s, n) = args[i + 1].rsplit_once(':').expect("--only sweep:index"); only = Some((s.to_string(), n.parse().expect("index"))); i += 1; }
                 _ => {}
             }
@@ -72,7 +75,7 @@ impl Ctx {
         let seed = std::env::var("VERIF_SEED").ok().and_then(|s| s.parse::<i64>().ok()).unwrap_or(0) as u64;
         let threads = std::env::var("VERIF_THREADS").ok().and_then(|s| s.parse().ok()).unwrap_or_else(|| std::thread::available_parallelism().map(|n| n.get()).unwrap_or(8)).min(MAX_THREADS).max(1);
         let emit = if layer == "L" && only.is_none() { std::env::var("VERIF_CLI_CASES").ok().and_then(|p| std::fs::File::create(p).ok()).map(std::io::BufWriter::new) } else { None };
-        Ctx { property: property.into(), layer: layer.into(), tier, seed, threads, only, panic_only: false, start: Instant::now(),
+        Ctx { property: property.into(), layer: layer.into(), tier, seed, threads, only, window, panic_only: false, start: Instant::now(),
             evaluations: AtomicU64::new(0), states: AtomicU64::new(0), transitions: AtomicU64::new(0), traces: AtomicU64::new(0),
             classes: Default::default(), samples: Default::default(), violations: Default::default(), violations_total: AtomicU64::new(0), sigs_seen: Default::default(),
             sweeps: Default::default(), guards: Default::default(), engine_errors: Default::default(), notes: Default::default(), extra: Default::default(),
@@ -130,7 +133,9 @@ impl Ctx {
         let t_sweep = Instant::now();
         let sweep_id = { let mut g = self.sweeps.lock().unwrap(); g.push(sw.clone()); g.len() };
         if let Some((only_name, idx)) = &self.only {
-            if only_name == name && *idx < n { self.run_one(&sw, sweep_id, 0, *idx, &f); }
+            if let Some((_, from, to)) = &self.window {
+                if only_name == name && *to < n { let (from, to) = (*from, *to); std::thread::scope(|s| { let (sw, f) = (&sw, &f); std::thread::Builder::new().stack_size(64 << 20).spawn_scoped(s, move || { for i in from..=to { self.run_one(sw, sweep_id, 0, i, f); } }).unwrap(); }); }
+            } else if only_name == name && *idx < n { self.run_one(&sw, sweep_id, 0, *idx, &f); }
             return;
         }
         let next = AtomicU64::new(0); let chunk = (n / (self.threads as u64 * 64)).clamp(1, 4096);
